@@ -483,6 +483,8 @@ Definition accept_case (l : list N) : option (list N) :=
         let ids := flat_map (fun '(t, a, _, _, _, _, _) => if t =? 12 then [a] else []) evs in
         let ports := flat_map (fun '(t, a, b, _, _, _, _) => if t =? 11 then [(a + 1, b)] else []) evs in
         let dropped := existsb (fun '(t, _, _, _, _, _, _) => t =? 4) evs in
+        (* something never completed under the watchdog *)
+        if existsb (fun '(t, _, _, _, _, _, _) => t =? 13) evs then Some (illegal O 13) else
         (* exactly once: the accepted ids are distinct pending connections *)
         if negb (forallb (fun x => (1 <=? x) && (x <=? k) && Nat.eqb (count_id x ids) 1) ids)
         then Some (illegal O 12) else
@@ -502,10 +504,91 @@ Definition accept_case (l : list N) : option (list N) :=
   | _ => None
   end.
 
+(* ====================================================================== *)
+(* bulk mode (back-pressure): replayed on byte counts (SockSpec.cstep, a
+   sound abstraction of the reference queue: C14_count_abstraction); the
+   harness compares every received chunk with the pattern at its position     *)
+
+Record bstate := mkb {
+  b_s : cstream; b_spos : N; b_rpos : N;
+  b_idx : N; b_done : N; b_aborted : bool; b_eofs : N }.
+
+Definition step_bulk (ops : list op3) (rcap : N) (st : bstate) (e : ev7) : option (bstate * ev7) :=
+  let '(t, a, b, c3, d4, e5, f6) := e in
+  let cur_total := match nth_error ops (nn (b_idx st)) with Some (_, tot, _) => tot | None => 0 end in
+  let cur_finished := (b_done st =? cur_total) || b_aborted st in
+  match t with
+  | 1 | 7 =>
+    if negb (a =? 1) then None else
+    let? '(k, total, chunk) := nth_error ops (nn b) in
+    if negb (k =? f6) then None else
+    (* the calls of one operation follow each other; the next operation starts
+       when the previous one is through (or was refused by the OS) *)
+    let? done0 := if b =? b_idx st then Some (b_done st)
+                  else if (b =? b_idx st + 1) && cur_finished then Some 0 else None in
+    if t =? 7 then Some (mkb (b_s st) (b_spos st) (b_rpos st) b done0 true (b_eofs st), e) else
+    let whole := (k =? 3) || (k =? 4) in
+    let offered := if whole then total else N.min chunk (total - done0) in
+    if negb (offered =? c3) then None else
+    if whole && negb (d4 =? offered) then None else
+    let? s1 := cstep (b_s st) (CSend offered d4) in
+    Some (mkb s1 (b_spos st + d4) (b_rpos st) b (done0 + d4) false (b_eofs st),
+          (1, 1, b, offered, d4, 1, k))
+  | 2 =>
+    if negb ((a =? 1) && (b_idx st + 1 =? NN (length ops)) && cur_finished) then None else
+    let? s1 := cstep (b_s st) CShutdown in
+    Some (mkb s1 (b_spos st) (b_rpos st) (b_idx st) (b_done st) (b_aborted st) (b_eofs st), e)
+  | 3 =>
+    if negb ((a =? 1) && (d4 =? b_rpos st)) then None else
+    let? s1 := cstep (b_s st) (CRecv rcap c3) in
+    Some (mkb s1 (b_spos st) (b_rpos st + c3) (b_idx st) (b_done st) (b_aborted st)
+              (b_eofs st + (if c3 =? 0 then 1 else 0)),
+          (3, 1, b, c3, b_rpos st, 1, 1))
+  | 9 =>
+    if negb ((a =? 1) && (cq (b_s st) =? 0)) then None else
+    Some (st, (9, 1, b_spos st, b_rpos st, 1, b_eofs st, f6))
+  | _ => None      (* 13 / 19: something never completed; 6: a receive failed *)
+  end.
+
+Fixpoint run_bulk (ops : list op3) (rcap : N) (st : bstate) (evs : list ev7) (i : nat) (acc : list ev7)
+  : list N :=
+  match evs with
+  | [] => enc_out (rev acc)
+  | e :: r =>
+    match step_bulk ops rcap st e with
+    | None => illegal i (fst (fst (fst (fst (fst (fst e))))))
+    | Some (st', e') => run_bulk ops rcap st' r (S i) (e' :: acc)
+    end
+  end.
+
+Definition bulk_case (l : list N) : option (list N) :=
+  match l with
+  | drv :: tr :: split :: sbuf :: rbuf :: seed :: who :: delay :: pace :: rcap :: n :: l =>
+    if negb ((drv <=? 1) && (tr <=? 1) && (split <=? 2) && (sbuf <=? 4194304) && (rbuf <=? 4194304)
+             && (seed <=? 60000) && (who <=? 1) && (delay <=? 500) && (pace <=? 1000)
+             && (1 <=? rcap) && (rcap <=? 1048576) && (1 <=? n) && (n <=? 8))
+    then None else
+    let? '(ops, l) := dec_ops (nn n) l in
+    if negb (forallb (fun '(k, a, b) => (1 <=? k) && (k <=? 6) && (1 <=? a) && (a <=? 8388608)
+                                         && (1 <=? b) && (b <=? 8388608)) ops
+             && (fold_right (fun '(_, a, _) acc => a + acc) 0 ops <=? 16777216))
+    then None else
+    match l with
+    | [99999] => Some (illegal O 99999)
+    | _ =>
+      match dec_transcript l with
+      | Some evs => Some (run_bulk ops rcap (mkb (mkc 0 false) 0 0 0 0 false 0) evs O [])
+      | None => Some l
+      end
+    end
+  | _ => None
+  end.
+
 Definition run_c14 (l : list N) : list N :=
   match l with
   | 1 :: r => match stream_case r with Some o => o | None => BAD_CASE end
   | 2 :: r => match dgram_case r with Some o => o | None => BAD_CASE end
   | 3 :: r => match accept_case r with Some o => o | None => BAD_CASE end
+  | 4 :: r => match bulk_case r with Some o => o | None => BAD_CASE end
   | _ => BAD_CASE
   end.
